@@ -267,7 +267,8 @@ def load_template(path, seen=None, text=None):
         raw = run_generator(gen) if os.path.exists(gen) else open(p).read()
         body = strip_file_wrapper(raw)
         body = load_template(p, seen, body)      # resolves its includes against the shared `seen` set
-        return '// ===== imported contracts of %s (bodies NOT re-verified here) =====\n' % os.path.basename(p) + to_import(body)
+        return ('// ===== imported contracts of %s (bodies NOT re-verified here) =====\n' % os.path.basename(p) + to_import(body)
+                + '\n// ===== end of imported contracts of %s =====\n' % os.path.basename(p))
 
     t = re.sub(r'^[ \t]*//@include[ \t]+(\S+)[ \t]*$', inc, t, flags=re.M)
     t = re.sub(r'^[ \t]*//@import[ \t]+(\S+)[ \t]*$', imp, t, flags=re.M)
@@ -749,6 +750,16 @@ def scan_trusted(text):
     clean = rsrc.blank(text)
     res = []
     lines = text.split('\n')
+    # regions of imported contracts: (first line, last line, exporting unit)
+    regions = []
+    start = None
+    for n_, ln_ in enumerate(lines, 1):
+        m_ = re.match(r'// ===== imported contracts of (\S+)', ln_)
+        if m_:
+            start = (n_, m_.group(1))
+        elif ln_.startswith('// ===== end of imported contracts') and start:
+            regions.append((start[0], n_, start[1]))
+            start = None
     for m in TRUST_RE.finditer(clean):
         n = clean.count('\n', 0, m.start()) + 1
         kind = m.group(1).strip('#[]').replace('verifier::', '').replace('(', '').strip()
@@ -765,6 +776,9 @@ def scan_trusted(text):
             name = 'line:' + lines[n - 1].strip()[:80]
         else:
             name = mm.group(2) if mm else '?'
+        reg = [r for r in regions if r[0] <= n <= r[1]]
+        if reg and kind == 'external_body':
+            kind = 'imported-contract[%s]' % reg[0][2].replace('.vtpl', '')
         res.append((kind, name))
     # dedupe external_body + external_type_specification pairs on the same item
     return sorted(set(res))
